@@ -137,6 +137,14 @@ def vclass(v, depth=0):
     if depth > 30:
         return None
     op = v.op
+    if op == "collect" and isinstance(v.a[0], tm.T):
+        # a comprehension over 0..n is as long as n
+        base = v.a[0]
+        while base.op == "map":
+            base = base.a[0]
+        if base.op == "iter" and base.a[0].op == "adt" and base.a[0].a[0] == "Range" and len(base.a[0].a) == 4 \
+                and base.a[0].a[2] is tm.ZERO:
+            return lclass(base.a[0].a[3], depth + 1)
     if op == "sym":
         from epbd import folds
         leaf = folds.STATE_LEAVES.get(v)
@@ -341,6 +349,15 @@ def refute_range_index(ev, gate):
     if cond.op != "le":
         return None
     L, I = cond.a
+    # the same inside a closure mapped over 0..n: the path condition carries `i < n`
+    for g in gate[:-1]:
+        if g.op == "lt" and g.a[0] is I:
+            n = g.a[1]
+            if L is n:
+                return "index below the length of this vector (element of 0..len)"
+            cl, cn = lclass(L), lclass(n)
+            if cl is not None and cl == cn:
+                return "index is an element of 0..n and the vector has the length class of n (%s)" % (cl,)
     for g in gate:
         if g.op != "in_loop":
             continue
